@@ -17,7 +17,7 @@
    save_success stores for k); [crash_after]/[json_crash]/[sq_crash]/[dumb_crash] = the disk after the first k steps
    of a dump / session; [dumb_read] = what the next process gets for a key; [torn old new] = first |old| bytes of
    new ++ (old without its first |new| bytes). *)
-From DoitV Require Import Base Dispatch Backends Runner Crash BackendsP CrashP Action ActionClass ActionClassP.
+From DoitV Require Import Base Dispatch Backends Runner Crash BackendsP CrashP Action ActionClass ActionClassP SaveRec SaveRecP.
 Local Open Scope nat_scope.
 
 (* ===================== interrupt half ===================== *)
@@ -346,3 +346,59 @@ Example C06_json_crash_nonvacuous :
   json_crash (Some [1%N]) [[2%N; 3%N]; [4%N]] 0 = Some [1%N] /\ json_crash (Some [1%N]) [[2%N; 3%N]; [4%N]] 1 = Some [] /\
   json_crash (Some [1%N]) [[2%N; 3%N]; [4%N]] 2 = Some [2%N; 3%N] /\ json_crash (Some [1%N]) [[2%N; 3%N]; [4%N]] 3 = Some [2%N; 3%N; 4%N].
 Proof. vm_compute. repeat split; reflexivity. Qed.
+
+(* ===================== (1g) the record save_success leaves, whatever record it finds ===================== *)
+(* Model/SaveRec.v: [save_success chk old pairs] = the record of a task after Dependency.save_success under checker [chk], when the
+   record found is [old] (None = no record) and [pairs] are the (key, value) pairs of the completed execution ("_values_:", "result:",
+   one per file_dep, "deps:"; the 'checker:' pair [KCHK] is added by the model).  harness/c06_history.py compares it with the real call.
+
+   Every pair of the execution that was reported successful IS in the record -- whether the record found was written under the same
+   checker, under another one (then it is dropped first) or did not exist: the values config_changed / run_once / result_dep / getargs
+   read next time are remembered. *)
+Theorem C06_save_keeps_every_pair : forall chk old pairs k v,
+  NoDup (map fst pairs) -> In (k, v) pairs -> k <> KCHK ->
+  save_success chk old pairs k = Some v.
+Proof. exact save_keeps_every_pair. Qed.
+Print Assumptions C06_save_keeps_every_pair.
+
+Theorem C06_save_records_checker : forall chk old pairs, save_success chk old pairs KCHK = Some chk.
+Proof. exact save_records_checker. Qed.
+Print Assumptions C06_save_records_checker.
+
+(* "never lies": nothing of a record written under ANOTHER checker survives the save (a timestamp is never read as an md5 state):
+   the record is the one a save without any prior record leaves *)
+Theorem C06_save_other_checker_drops_old : forall chk old pairs c k,
+  rget old KCHK = Some c -> c <> chk -> ~ In k (map fst pairs) -> k <> KCHK ->
+  save_success chk old pairs k = None.
+Proof. exact save_other_checker_drops_old. Qed.
+Print Assumptions C06_save_other_checker_drops_old.
+
+Theorem C06_save_other_checker_fresh : forall chk old pairs c,
+  rget old KCHK = Some c -> c <> chk -> forall k, save_success chk old pairs k = save_success chk None pairs k.
+Proof. exact save_other_checker_fresh. Qed.
+Print Assumptions C06_save_other_checker_fresh.
+
+(* a record of the same checker (or one without the key) is updated in place *)
+Theorem C06_save_same_checker_keeps_old : forall chk old pairs k,
+  (rget old KCHK = Some chk \/ rget old KCHK = None) -> ~ In k (map fst pairs) -> k <> KCHK ->
+  save_success chk old pairs k = rget old k.
+Proof. exact save_same_checker_keeps_old. Qed.
+Print Assumptions C06_save_same_checker_keeps_old.
+
+(* the ORDER matters (seeded/C06g): with the guard after the values / result pairs a pair of the successful execution is lost
+   where save_success keeps it -- C06_save_keeps_every_pair is not true of that variant *)
+Theorem C06_save_late_guard_refuted :
+  exists chk old pre post k v, In (k, v) pre /\ k <> KCHK /\ NoDup (map fst (pre ++ post)) /\
+    save_success chk old (pre ++ post) k = Some v /\
+    save_success_late_guard chk old pre post k = None.
+Proof. exact late_guard_loses_values. Qed.
+Print Assumptions C06_save_late_guard_refuted.
+
+(* non-vacuity: a record under checker 7 with values (key 0) and a file_dep state (key 5); a save under checker 8 *)
+Example C06_save_nonvacuous :
+  let old := Some (mk_rec [(0%N, 1%Z); (KCHK, 7%Z); (5%N, 2%Z)]) in
+  let pairs := [(0%N, 3%Z); (3%N, 4%Z)] in
+  NoDup (map fst pairs) /\ rget old KCHK = Some 7%Z /\
+  enc_rec [0%N; 1%N; 2%N; 3%N; 5%N] (Some (save_success 8%Z old pairs)) = [1; 3; -1; 8; 4; -1]%Z /\
+  enc_rec [0%N; 1%N; 2%N; 3%N; 5%N] (Some (save_success 7%Z old pairs)) = [1; 3; -1; 7; 4; 2]%Z.
+Proof. split; [repeat constructor; simpl; intuition discriminate|]. vm_compute. repeat split; reflexivity. Qed.
